@@ -118,8 +118,9 @@ Fixpoint read_cells (mx : N) (n : nat) (bs : list N) : outcome (list N) :=
         else obind (read_cells mx n' (skipn 8 bs)) (fun r => Ok (v :: r))
   end.
 
-(* deserialize_with_seed; [mx] is the counter type, [sh] the expected seed hash *)
-Definition cm_deserialize (mx sh : N) (bs : list N) : outcome cm :=
+(* the header part of deserialize_with_seed: everything up to (and including) the table-size check;
+   returns (num_hashes, num_buckets, flags, entries).  The crate allocates the table right after. *)
+Definition cm_parse_header (sh : N) (bs : list N) : outcome (N * N * N * N) :=
   if (length bs <? 8)%nat then Err else
   let pre := nth 0 bs 0 in let ver := nth 1 bs 0 in let fam := nth 2 bs 0 in let flags := nth 3 bs 0 in
   if negb (fam =? zN GenCodec.FAMILY_COUNTMIN_ID) then Err else
@@ -130,9 +131,16 @@ Definition cm_deserialize (mx sh : N) (bs : list N) : outcome cm :=
   let nh := nth 12 bs 0 in
   let got_sh := le_val (firstn 2 (skipn 13 bs)) in
   if negb (got_sh =? sh) then Err else
-  obind (entries_for_config_checked nh nb) (fun entries =>
+  obind (entries_for_config_checked nh nb) (fun entries => Ok (nh, nb, flags, entries)).
+
+(* deserialize_with_seed; [mx] is the counter type, [sh] the expected seed hash *)
+Definition cm_deserialize (mx sh : N) (bs : list N) : outcome cm :=
+  obind (cm_parse_header sh bs) (fun '(nh, nb, flags, entries) =>
   if negb (N.land flags (zN GenCountMin.FLAGS_IS_EMPTY) =? 0) then Ok (cm_make nh nb mx sh entries)
   else
+    (* the payload (total weight + every counter) must be present before the table is allocated *)
+    if (N.of_nat (length bs) <? zN GenCountMin.PREAMBLE_LONGS_SHORT * zN GenCountMin.LONG_SIZE_BYTES
+                                + (entries + 1) * zN GenCountMin.LONG_SIZE_BYTES) then Err else
     obind (read_cells mx (S (N.to_nat entries)) (skipn 16 bs)) (fun cells =>
     match cells with
     | t :: cs => Ok (mkCm nh nb mx sh t cs)
